@@ -172,9 +172,9 @@ var c11Methods = []string{"GET", "POST", "HEAD", "PUT", "BREW"}
 
 func c11Paths(thorough bool) []string {
 	if thorough {
-		return pathsOver([]string{"g", "a", "v"}, 3, []string{"/", "/g/g/g/a", "/g/v/g/a"})
+		return pathsOver([]string{"g", "a", "v"}, 3, []string{"/", "/g/g/g/a", "/g/v/g/a", "/g/g/g/v", "/g/g/g/g/a", "/g/g/g/g/v"})
 	}
-	return append(pathsOver([]string{"g", "a", "v"}, 2, nil), "/g/g/a", "/g/v/a", "/v/g/a", "/g/g/v", "/v/v/v", "/")
+	return append(pathsOver([]string{"g", "a", "v"}, 2, nil), "/g/g/a", "/g/v/a", "/v/g/a", "/g/g/v", "/v/v/v", "/", "/g/g/g/a", "/g/g/g/v", "/g/g/g/g/a", "/g/g/g/g/v")
 }
 
 // c11Judge executes one program both ways and compares. kind is the finding key.
@@ -399,6 +399,32 @@ func c11Programs(thorough bool) [][]c11Node {
 					progs = append(progs,
 						[]c11Node{{Kind: "group", Path: pf, NH: 1, Children: []c11Node{g2, sib}}},
 						[]c11Node{{Kind: "group", Path: pf, NH: 1, Children: []c11Node{sib, g2}}})
+				}
+			}
+		}
+	}
+	// nested groups whose accumulated handler lists have spare capacity, with two sibling routes in the
+	// innermost group (and one after it): the shape in which shared backing arrays would bite
+	red := []c11Node{{Kind: "get", Path: "/a", NH: 1}, {Kind: "get", Path: "/v", NH: 1}, {Kind: "post", Path: "/a", NH: 2}, {Kind: "any", Path: "/{x}", NH: 1},
+		{Kind: "combo", Path: "/a", NH: 1}, {Kind: "routes-comma", Path: "/v", NH: 1}}
+	profiles := [][]int{{2, 1}, {1, 2}, {1, 1, 1}, {0, 1, 1}, {2, 2}, {3, 1}, {1, 1, 1, 1}}
+	if !thorough {
+		profiles = profiles[:4]
+	}
+	for _, prof := range profiles {
+		for _, a := range red {
+			for _, b := range red {
+				for _, tail := range []int{-1, 0, 3} {
+					inner := []c11Node{a, b}
+					node := c11Node{Kind: "group", Path: "/g", NH: prof[len(prof)-1], Children: inner}
+					for d := len(prof) - 2; d >= 0; d-- {
+						ch := []c11Node{node}
+						if tail >= 0 && d == len(prof)-2 {
+							ch = append(ch, red[tail])
+						}
+						node = c11Node{Kind: "group", Path: "/g", NH: prof[d], Children: ch}
+					}
+					progs = append(progs, []c11Node{node})
 				}
 			}
 		}
